@@ -106,6 +106,57 @@ fn main() {
                 }
             }
         }
+        "fuzz-artifact" => {
+            // vcheck fuzz-artifact <target> <artifact file> : decode a libFuzzer artifact, minimise it
+            // (byte-chunk delta debugging under the same failure signature), write the replay file
+            let target = args[2].clone();
+            let data = std::fs::read(&args[3]).unwrap_or_else(|e| {
+                eprintln!("cannot read {}: {}", args[3], e);
+                std::process::exit(2)
+            });
+            let run = |d: &[u8]| -> Option<vharness::fuzzing::FuzzFail> {
+                match guarded(|| vharness::fuzzing::run_target(&target, d)) {
+                    Ok(Some(Err(f))) => Some(f),
+                    Ok(_) => None,
+                    Err(p) => Some(vharness::fuzzing::FuzzFail { prop: "C18", sub: "panic", case: serde_json::json!({"bytes": d}), fail: Fail { sig: "panic".into(), detail: p } }),
+                }
+            };
+            let first = match run(&data) {
+                Some(f) => f,
+                None => {
+                    println!("fuzz-artifact: the artifact does not reproduce a violation in this build");
+                    std::process::exit(0);
+                }
+            };
+            let sig = (first.prop, first.fail.sig.clone());
+            let mut cur = data.clone();
+            for gran in [64usize, 16, 8, 4, 2, 1] {
+                let mut i = 0;
+                while i + gran <= cur.len() {
+                    let mut cand = cur.clone();
+                    cand.drain(i..i + gran);
+                    match run(&cand) {
+                        Some(f) if (f.prop, f.fail.sig.clone()) == sig => cur = cand,
+                        _ => i += gran,
+                    }
+                }
+            }
+            let f = run(&cur).unwrap_or(first);
+            let replay_dir = std::env::var("VERIF_REPLAY_DIR").unwrap_or_else(|_| format!("{}/replays", verif_dir));
+            let _ = std::fs::create_dir_all(&replay_dir);
+            let body = serde_json::json!({
+                "property": f.prop, "config": if target == "serde_json" { "serde" } else { "main" }, "sub": f.sub,
+                "signature": format!("fuzz/{}/{}", target, f.fail.sig), "case": f.case, "detail": f.fail.detail,
+                "found_by": format!("libFuzzer target {}", target), "minimised_input_bytes": cur,
+            });
+            let path = format!("{}/{}-fuzz_{}-{:08x}.json", replay_dir, f.prop, target, hash_str(&body["case"].to_string()) as u32);
+            if std::fs::write(&path, serde_json::to_string_pretty(&body).unwrap()).is_err() {
+                std::process::exit(2);
+            }
+            eprintln!("  [{}] fuzz/{}/{} :: {}", f.prop, target, f.fail.sig, f.fail.detail);
+            println!("VIOLATION property={} replay={}", f.prop, path);
+            std::process::exit(1);
+        }
         _ => usage(),
     }
 }
